@@ -5,7 +5,7 @@ from vlib import langsuite as L
 
 def run_one(prop, suite, tier, rule, assumptions, extra_thorough=(), gen=0, extra_always=()):
     """extra_thorough: further suites run in the thorough tier; gen: number of generated programs whose
-    result-level disagreements attributed to `prop` are reported too (thorough tier)."""
+    result-level disagreements attributed to `prop` are reported too (thorough tier; 250 in the quick tier)."""
     from vlib import gensuite as G
     chk = C.Check(prop, tier)
     results = [L.run_suite(chk, suite, tier)]
@@ -25,6 +25,10 @@ def run_one(prop, suite, tier, rule, assumptions, extra_thorough=(), gen=0, extr
             n += n2
         if gen:
             results.append(G.run_gen(chk, tier, gen, salt=sum(map(ord, prop))))
+    elif gen:
+        # quick tier: a small batch of generated programs (own salt per property, so the four checks that do this
+        # look at different programs); only disagreements attributed to `prop` are reported here
+        results.append(G.run_gen(chk, tier, 250, salt=sum(map(ord, prop))))
     L.fill_coverage(chk, results, n, rule)
     chk.cov["exhaustive"] = True
     others = L.report(chk, prop, results, bad, attribute=G.attribute)
